@@ -239,6 +239,7 @@ class Tree:
             unroll_literal_loops(f.node)
             updates_to_loops(f.node)
             genexp_loops(f.node)
+            split_tuple_assignments(f.node)
             searches_to_loops(f.node)
             inline_single_use_temps(f.node)
             push_not(f.node)
